@@ -607,12 +607,15 @@ def _function_to_json(f: types.FunctionType) -> Dict[str, str]:
   if ('<lambda>' == f.__name__                       # lambda functions.
       or (f.__code__.co_flags & inspect.CO_NESTED)   # local functions.
       ):
-    return {
+    json_dict = {
         JSONConvertible.TYPE_NAME_KEY: 'function',
         'name': _type_name(f),
         'code': base64.encodebytes(marshal.dumps(f.__code__)).decode('utf-8'),
         'defaults': to_json(f.__defaults__),
     }
+    if f.__kwdefaults__:
+      json_dict['kwdefaults'] = to_json(f.__kwdefaults__)
+    return json_dict
 
   return {
       JSONConvertible.TYPE_NAME_KEY: 'function',
@@ -771,11 +774,15 @@ def _function_from_json(
     code = marshal.loads(
         base64.decodebytes(json_value['code'].encode('utf-8')))
     defaults = from_json(json_value['defaults'], _typename_resolved=True)
-    return types.FunctionType(
+    fn = types.FunctionType(
         code=code,
         globals=globals(),
         argdefs=defaults,
     )
+    if 'kwdefaults' in json_value:
+      fn.__kwdefaults__ = from_json(
+          json_value['kwdefaults'], _typename_resolved=True)
+    return fn
   else:
     return _load_symbol(function_name)
 
